@@ -102,7 +102,8 @@ BIN = {ast.Add: lambda a, b: a + b, ast.Sub: lambda a, b: a - b,
        else (bool(a) and bool(b)),
        ast.BitOr: lambda a, b: (a | b) if _ints(a, b)
        else (bool(a) or bool(b)),
-       ast.Pow: lambda a, b: a ** b}
+       ast.Pow: lambda a, b: a ** b,
+       ast.FloorDiv: lambda a, b: a // b, ast.Mod: lambda a, b: a % b}
 
 
 def ev(e, env):
@@ -193,6 +194,15 @@ def ev(e, env):
             if short in REDUCE and not e.args:
                 return REDUCE[short](ev(e.func.value, env))
             raise Unknown(fn)
+        if short == "isinstance" and len(e.args) == 2 and \
+                isinstance(e.func, ast.Name):
+            v = ev(e.args[0], env)
+            types = {"int": int, "float": float, "str": str, "bool": bool}
+            names = [norm(t) for t in (e.args[1].elts if isinstance(
+                e.args[1], ast.Tuple) else [e.args[1]])]
+            if all(t in types for t in names):
+                return isinstance(v, tuple(types[t] for t in names))
+            raise Unknown(norm(e))
         args = [ev(a, env) for a in e.args]
         if short in REDUCE and len(args) == 1:
             return REDUCE[short](args[0])
